@@ -93,24 +93,6 @@ def has_unsigned_native(text):
     return re.search(r"INTEGER\s*\(\s*\d+\s*\.\.\s*MAX\s*\)", text) is not None
 
 
-def dangling_member_constraints(m):
-    """predicate of C13-no-constraints-unbuildable: a generated .c file refers to a member constraint
-    table asn_OER_memb_X / asn_PER_memb_X that no generated file defines"""
-    import os
-    d = m.get("dir")
-    if not d or not os.path.isdir(d):
-        return False
-    for f in os.listdir(d):
-        if not f.endswith(".c"):
-            continue
-        src = open(os.path.join(d, f), errors="replace").read()
-        refs = set(re.findall(r"&(asn_(?:OER|PER)_memb_\w+)", src))
-        defs = set(re.findall(r"asn_(?:oer|per)_constraints_t\s+(asn_(?:OER|PER)_memb_\w+)", src))
-        if refs - defs:
-            return True
-    return False
-
-
 def run_lines_watchdog(exe, lines, per_line=10.0, env=None):
     """feed command lines to a line-protocol driver with a watchdog: if no complete answer line arrives
     within per_line seconds the driver is killed (a command that never returns — e.g. BIT_STRING_encode_oer's
